@@ -71,6 +71,9 @@ func symConst(u *big.Int, w int) *Sym { return mkSym("const", w, new(big.Int).Se
 // FreshSym makes a new atom.
 func FreshSym(name string, w int) *Sym {
 	symFresh++
+	if name == "t" {
+		return mkSym("tmp:"+itoa(symFresh), w, nil)
+	}
 	return mkSym("in:"+name, w, nil)
 }
 
